@@ -88,17 +88,17 @@ def main():
         if scratch:
             subprocess.run(['git', '-C', '/repo', 'worktree', 'remove', '--force', scratch])
     print(json.dumps(res, indent=1))
-    if scratch:
+    if scratch and meta.get('result'):
         return 0 if all(res.get('check_' + p, {}).get('exit') == 1 for p in props) else 1
-    meta['what_i_ran'] = ['git -C /repo apply seeded/%s/patch.diff' % res['id'],
+    where = '/repo' if not scratch else '<scratch worktree of /repo at HEAD>'
+    meta['what_i_ran'] = ['git -C %s apply seeded/%s/patch.diff' % (where, res['id']),
                           'cd /repo && /venv/bin/python -m pytest -q -p no:cacheprovider --timeout=120 tests',
                           '/venv/bin/python seeded/%s/demo.py   (exit 1 expected with the patch)' % res['id']] + \
                          ['./check %s --tier %s   (exit 1 + VIOLATION expected)' % (p, args.tier) for p in props] + \
-                         ['git -C /repo checkout -- .', '/venv/bin/python seeded/%s/demo.py   (exit 0 expected without it)' % res['id']]
+                         ['git -C %s checkout -- .' % where, '/venv/bin/python seeded/%s/demo.py   (exit 0 expected without it)' % res['id']]
     meta['result'] = res
     meta['caught_by'] = [p for p in props if res.get('check_' + p, {}).get('exit') == 1]
-    if not scratch:
-        json.dump(meta, open(os.path.join(d, 'meta.json'), 'w'), indent=1)
+    json.dump(meta, open(os.path.join(d, 'meta.json'), 'w'), indent=1)
     caught = all(res.get('check_' + p, {}).get('exit') == 1 for p in props)
     return 0 if caught else 1
 
